@@ -14,6 +14,7 @@ import (
 	"encoding/json"
 	"fmt"
 	"os"
+	"os/exec"
 	"runtime"
 	"sort"
 	"strings"
@@ -43,6 +44,7 @@ type schedule struct {
 	Sleep   int        `json:"sleep_pct"`
 	Chans   []chanSpec `json:"chans"`
 	Senders [][]int    `json:"senders"` // send ids per sender goroutine
+	Bad     []int      `json:"bad"`     // send ids whose value has the wrong type (Send panics)
 	Procs   int        `json:"procs"`
 }
 
@@ -78,6 +80,13 @@ func genSchedule(r *vh.RNG) schedule {
 		}
 		s.Senders = append(s.Senders, ids)
 	}
+	early := false
+	for _, c := range s.Chans {
+		early = early || !c.Late
+	}
+	if early && r.Chance(12) { // the element type is fixed by the first Subscribe, which must come first
+		s.Bad = append(s.Bad, 1+r.Intn(id-1))
+	}
 	return s
 }
 
@@ -101,7 +110,7 @@ func (s schedule) class() string {
 		}
 		return "0"
 	}
-	return fmt.Sprintf("senders=%d/chans=%d/unbuf=%s/late=%s/ext=%s/self=%s/scope=%s", len(s.Senders), len(s.Chans), b(unbuf), b(late), b(un["ext"]), b(un["self"]), b(un["scope"]))
+	return fmt.Sprintf("senders=%d/chans=%d/unbuf=%s/late=%s/ext=%s/self=%s/scope=%s/badtype=%s", len(s.Senders), len(s.Chans), b(unbuf), b(late), b(un["ext"]), b(un["self"]), b(un["scope"]), b(len(s.Bad)))
 }
 
 // ---------------------------------------------------------------- running one schedule
@@ -269,6 +278,18 @@ func runSchedule(s schedule, watchdog time.Duration) (out outcome) {
 			for _, id := range ids {
 				pause(rng, &rmu, 1)
 				tr.Record("send_call", id, 0)
+				bad := false
+				for _, b := range s.Bad {
+					bad = bad || b == id
+				}
+				if bad { // wrong element type: Send must panic and leave nothing locked
+					if p, _ := vh.CatchPanic(func() { feed.Send(fmt.Sprint("bad", id)) }); p {
+						tr.Record("send_panic", id, 0)
+					} else {
+						tr.Record("send_nopanic", id, 0)
+					}
+					continue
+				}
 				n := feed.Send(id)
 				tr.Record("send_ret", id, n)
 			}
@@ -336,7 +357,19 @@ func translate(s schedule, evs []event.VerifEvent) ([]string, string) {
 		case "send_lock":
 			ls = append(ls, fmt.Sprintf("lock:%d", sid))
 		case "send_merge":
-			ls = append(ls, fmt.Sprintf("merge:%d", sid))
+			bad := false
+			for j := i + 1; j < len(evs); j++ {
+				if evs[j].G == e.G {
+					bad = evs[j].Point == "send_panic"
+					break
+				}
+			}
+			if bad { // merge + failed typecheck + token put back + f.mu released: one label, placed before the release
+				ls = append(ls, fmt.Sprintf("bad:%d", sid))
+			} else {
+				ls = append(ls, fmt.Sprintf("merge:%d", sid))
+			}
+		case "send_panic", "send_nopanic":
 		case "try":
 			ok := false
 			for j := i + 1; j < len(evs); j++ {
@@ -457,6 +490,11 @@ func oracle(s schedule, evs []event.VerifEvent) (observed string, vs []verdict) 
 		}
 	}
 	sort.Ints(sids)
+	for _, e := range evs {
+		if e.Point == "send_nopanic" {
+			vs = append(vs, verdict{"badtype-send-accepted", fmt.Sprintf("Send(%d) with a value of the wrong type did not panic", e.Ch)})
+		}
+	}
 	for _, cs := range s.Chans {
 		c := cs.ID
 		subRet := pos("sub_ret", c)
@@ -579,6 +617,59 @@ func typeMismatch(c *vh.Ctx, m *vh.Model) {
 	}
 }
 
+// ---------------------------------------------------------------- thorough tier: the same run under the race detector
+
+func raceRun(c *vh.Ctx) {
+	root := os.Getenv("VERIF_ROOT")
+	if !c.Thorough() || os.Getenv("C19_RACE_CHILD") != "" || root == "" || c.Replay != "" {
+		return
+	}
+	bin := root + "/bin/c19_race"
+	build := exec.Command("go", "build", "-race", "-tags", "verif", "-o", bin, "./cmd/c19")
+	build.Dir = root + "/harness"
+	if out, err := build.CombinedOutput(); err != nil {
+		c.Note("race variant skipped: go build -race failed: %v %s", err, clipS(string(out), 300))
+		return
+	}
+	run := exec.Command(bin, "-seed", fmt.Sprint(c.Seed), "-tier", "quick", "-out", c.OutDir+"/race", "-model", c.ModelBin)
+	run.Env = append(os.Environ(), "C19_RACE_CHILD=1", "GORACE=halt_on_error=0")
+	out, err := run.CombinedOutput()
+	n := strings.Count(string(out), "WARNING: DATA RACE")
+	c.Count("race-variant/schedules")
+	c.Note("race variant (go build -race, quick tier, same seed): %d data race reports, exit %v, summary %s", n, err, clipS(lastLine(string(out)), 200))
+	if n > 0 {
+		i := strings.Index(string(out), "WARNING: DATA RACE")
+		c.Violate("data-race", "the race detector reports a data race in event.Feed under the C19 schedules", map[string]interface{}{"report": clipS(string(out)[i:], 3000), "seed": c.Seed})
+	}
+	var child struct {
+		N int `json:"n_disagreements"`
+		V []struct {
+			Signature string `json:"signature"`
+			What      string `json:"what"`
+		} `json:"violations"`
+	}
+	if b, e := os.ReadFile(c.OutDir + "/race/result.json"); e == nil && json.Unmarshal(b, &child) == nil {
+		for _, v := range child.V {
+			c.Violate("race-variant/"+v.Signature, v.What, map[string]interface{}{"seed": c.Seed, "variant": "-race"})
+		}
+		if child.N > 0 {
+			c.Violate("race-variant/trace-rejected", "under -race a recorded trace is not a path of the LTS", map[string]interface{}{"seed": c.Seed, "count": child.N})
+		}
+	}
+}
+
+func clipS(s string, n int) string {
+	if len(s) > n {
+		return s[:n]
+	}
+	return s
+}
+
+func lastLine(s string) string {
+	ls := strings.Split(strings.TrimSpace(s), "\n")
+	return ls[len(ls)-1]
+}
+
 // ---------------------------------------------------------------- main
 
 func main() {
@@ -694,6 +785,7 @@ func main() {
 			c.Sample(map[string]interface{}{"schedule": r.s, "labels": strings.Join(labels[i], " "), "model": answers[k]})
 		}
 	}
+	raceRun(c)
 	c.Assume("channels and mutexes behave as the Go language specification says; the scheduler and the memory model are not modelled (the race detector is not part of this run)")
 	c.Assume("every subscriber keeps receiving until it has unsubscribed (receiver fairness); each channel value is subscribed at most once")
 	c.Finish()
